@@ -22,7 +22,7 @@ pub mod coset { use vstd::prelude::*; #[verifier::external_body] pub struct Cose
     impl Clone for CoseKey { #[verifier::external_body] fn clone(&self) -> (r: Self) ensures r == *self { unimplemented!() } }
     // decode side: the error type, the result alias and AsCborValue::from_cbor_value (outcome unconstrained)
     pub struct EndOfFile;
-    pub enum CoseError { DecodeFailed(crate::ciborium::de::Error<EndOfFile>), OutOfRangeIntegerValue, Other }
+    pub enum CoseError { DecodeFailed(crate::ciborium::de::Error<EndOfFile>), OutOfRangeIntegerValue, UnexpectedItem(&'static str, &'static str), Other }
     pub type Result<T, E = CoseError> = core::result::Result<T, E>;
     // AsCborValue::from_cbor_value: a deterministic partial function of the value
     pub uninterp spec fn spec_cose_key(v: crate::Value) -> Option<CoseKey>;
@@ -34,7 +34,12 @@ pub mod coset { use vstd::prelude::*; #[verifier::external_body] pub struct Cose
 }
 pub use coset::CoseKey;
 #[verifier::external_body] pub struct Value { _p: u8 }
-impl Value { #[verifier::external_body] pub fn serialized<T>(t: &T) -> Result<Value, ()> { unimplemented!() } }
+// a CBOR value is a map or something else; the extension output structs (serde structs) serialise to maps (assumed)
+pub uninterp spec fn spec_is_map(v: Value) -> bool;
+impl Value {
+    #[verifier::external_body] pub fn serialized<T>(t: &T) -> (r: Result<Value, ()>) ensures r matches Ok(v) ==> spec_is_map(v) { unimplemented!() }
+    #[verifier::external_body] pub fn is_map(&self) -> (r: bool) ensures r == spec_is_map(*self) { unimplemented!() }
+}
 // ---- std::io::{Cursor, Read} over a byte slice (trusted model): `rem()` is the unread suffix; read_exact either
 //      fills the whole buffer from the front of it or fails because fewer bytes remain.
 pub mod io_model { use vstd::prelude::*;
@@ -214,6 +219,7 @@ pub open spec fn built_inv(d: AuthenticatorData) -> bool {
     &&& (d.flags.has(6) <==> d.attested_credential_data is Some)
     &&& (d.flags.has(7) <==> d.extensions is Some)
     &&& (d.attested_credential_data matches Some(a) ==> a.credential_id@.len() <= 65535)
+    &&& (d.extensions matches Some(v) ==> spec_is_map(v))
 }
 pub open spec fn sections_agree_with_flags(d: AuthenticatorData) -> bool { built_inv(d) }
 pub fn vx_encode_then_decode(d: &AuthenticatorData) -> (r: coset::Result<AuthenticatorData>)
